@@ -871,7 +871,7 @@ func (p *parser) parseBin(minPrec int) (Expr, error) {
 
 func (p *parser) parseUnary() (Expr, error) {
 	t := p.peek()
-	if t.k == "op" && (t.s == "!" || t.s == "-" || t.s == "^") {
+	if t.k == "op" && (t.s == "!" || t.s == "-" || t.s == "^" || t.s == "*" || t.s == "&") {
 		p.next()
 		x, err := p.parseUnary()
 		if err != nil {
